@@ -171,3 +171,12 @@ def run(ctx):
     path = smcfg.path_avoiding(smcfg.entry, [smcfg.exit], avoid_nodes=yw)
     ctx.ob("C09.NORM", sm, "_set_months defines years on every path (assignment, not accumulation: it is re-run by the loop)",
            path is None and all(isinstance(n.ast, ast.Assign) for n in yw), construct="self.years in _set_months")
+
+    # ---------------------------------------------------------------- C09.ARGS / C09.PRESENCE
+    from ..rules_common import check_call_arguments, check_presence_tests, ARG_SCOPE
+    check_call_arguments(ctx, "C09.ARGS", "C09")
+    from ..rules_common import check_effect_tables
+    check_effect_tables(ctx, "C09")
+    check_presence_tests(ctx, "C09.PRESENCE", classes=ARG_SCOPE.get("C09", []))
+
+
